@@ -34,6 +34,11 @@ Definition np_count_gt (d : V3 T) (tol : T) : nat :=
 Definition np_diag3 (d : V3 T) : M3 T := diag (vx d) (vy d) (vz d).     (* np.diag(d) *)
 Definition m3_set22 (m : M3 T) (v : T) : M3 T :=                       (* m[2, 2] = v *)
   mkM3 (m00 m) (m01 m) (m02 m) (m10 m) (m11 m) (m12 m) (m20 m) (m21 m) v.
+(* np.allclose(a, b, atol=atol) with rtol: every |a - b| <= atol + rtol * |b| *)
+Definition np_isclose (rtol atol a b : T) : bool := nabs (a -! b) <=?! (atol +! rtol *! nabs b).
+Definition np_allclose_s (rtol atol a b : T) : bool := np_isclose rtol atol a b.
+Definition np_allclose_m (rtol atol : T) (a b : M3 T) : bool :=
+  forallb (fun p => np_isclose rtol atol (fst p) (snd p)) (combine (mlist a) (mlist b)).
 (* for i in range(n): acc = body acc i *)
 Definition py_for_range {S : Type} (n : nat) (body : S -> nat -> S) (init : S) : S := fold_left body (seq 0 n) init.
 End Np.
